@@ -13,7 +13,11 @@ pub fn expr(e: &Expr) -> String {
         Expr::Bool(b) => b.to_string(),
         Expr::Str(s) => format!("\"{s}\""),
         Expr::Float(f) => {
-            let s = format!("{f:?}");
+            // plain decimal notation (no exponent), at least one digit after the point
+            let mut s = format!("{:.10}", f);
+            while s.ends_with('0') && !s.ends_with(".0") {
+                s.pop();
+            }
             if *f < 0.0 { format!("({s})") } else { s }
         }
         Expr::Var(v) => v.clone(),
